@@ -421,7 +421,7 @@ theorem genericsMirror_clone (g : GenericsD) :
   exact ⟨ps, by simp [genericsMirror, hp], hl⟩
 
 /-- a where-clause without a parameter list is mirrored too -/
-example : genericsMirror none { whereToks := "where String : Clone" } =
+example : genericsMirror none { whereToks := "where String : Clone", hasWhere := true } =
     .ok (.record "Generics" [("params", .list []), ("where_clause", .some (.toks "where String : Clone"))]) := by
   simp [genericsMirror, collectFirst, whereVal]
 
